@@ -38,13 +38,13 @@ ASSUMPTIONS = [
     "16-bit mono audio with amplitude 4096 (72 dB) vs digital silence at the default threshold: energy is C07's subject",
 ]
 BOUNDS = {"quick": dict(n=500), "thorough": dict(n=8000)}
-WINDOWS = ("0.005", "0.01", "0.02", "0.025", "0.03", "0.05", "0.1", "0.2")
+WINDOWS = ("0.005", "0.01", "0.02", "0.025", "0.03", "0.05", "0.1", "0.2", "0.0125", "0.035", "0.07", "0.141", "0.071", "0.0375", "0.0025")
 RATES = (1000, 8000, 16000)
 LOUD = (4096).to_bytes(2, "little", signed=True)
 
 G_MIN = (-1, 0, 1e-7, 0.01, 0.05, 0.07, 0.1, 0.3)
 G_MAX = (-1, 0, 1e-7, 0.01, 0.05, 0.1, 0.3, 5)
-G_SIL = (-1, 0, 1e-7, 0.01, 0.05, 0.1, 0.3)
+G_SIL = (-1, -1e-10, -5e-11, -1e-12, 0, 1e-7, 0.01, 0.05, 0.1, 0.3)
 G_W = (-1, 0, 1e-7, 1e-4, 0.01, 0.05, 0.1)
 G_RATE = (10, 1000, 16000)
 
@@ -241,6 +241,8 @@ def check_grid(case, rec):
     except ValueError as exc:
         raised = exc
     labels = ["grid_reject" if reject else "grid_accept"]
+    if case.get("sweep"):
+        labels.append("decimal_product_sweep")
     if case.get("mr") is not None and not reject:
         labels.append("grid_accept_with_max_read")
     if all(isinstance(v, int) for v in (mind, maxd, sild, w)):
@@ -311,6 +313,10 @@ def explicit_cases():
         {"grid": [5, 6, 4, 2, 10], "input": "region_method"}, {"grid": [5, 6, 6, 3, 10]}, {"grid": [4, 3, 0, 3, 10], "input": "reader"},
         {"grid": [1, 1, 0, 1, 8]}, {"grid": [7, 8, 3, 4, 8], "input": "reader"},
     ] + [
+        # a window of exactly 1/rate seconds at rates where the float product (1/rate)*rate falls short of 1:
+        # the window holds no whole sample
+        {"grid": [0.5, 1.0, 0.0, 1 / r, r], "input": k} for r in (49, 98, 103, 107, 161, 187, 196) for k in ("bytes", "reader")
+    ] + [
         # reader inputs at 48 kHz with durations beyond a million samples: n windows of 0.05 s is n windows
         {"grid": [round(n * 0.05, 2), round(n * 0.05, 2), 0, 0.05, 48000], "input": "reader"} for n in (641, 646, 651, 656, 700, 1000, 1203)
     ] + [
@@ -342,6 +348,8 @@ def strategy(draw):
         if draw(st.booleans()):
             fmax = "hair_up"        # still kmax windows
     order = "".join(draw(st.permutations("abcdefgh")))[: draw(st.integers(2, 8))]
+    if Fraction(w) * sr != int(Fraction(w) * sr):
+        sr = 8000  # every window of the list is a whole number of samples at 8 kHz
     B = int(Fraction(w) * sr)
     wf = None
     if draw(st.integers(0, 3)) == 0:
@@ -379,16 +387,37 @@ def _grid(rates):
                         yield {"grid": [mind, maxd, sild, w, sr], "input": ("bytes", "region_fn", "region_method")[k % 3]}
 
 
+def _sweep(lo, hi, nmax):
+    """n windows of k milliseconds written as the decimal product n*k/1000: exactly n windows, for the
+    rounding up (min_dur) as for the rounding down (max_dur, max_silence) - min_dur == max_dur == n*w is a
+    valid combination, and max_silence == n*w is not (it equals max_dur)."""
+    for k in range(lo, hi):
+        w = float(Decimal(k) / Decimal(1000))
+        for n in range(1, nmax + 1):
+            d = float(Decimal(n) * Decimal(k) / Decimal(1000))
+            kind = ("bytes", "region_fn", "reader")[(k + n) % 3]
+            if kind == "reader" and math.floor(Fraction(w) * 1000) != k:
+                kind = "bytes"  # (the float k/1000 lies a hair below k samples: how many samples a reader's block holds is C10's razor case)
+            yield {"grid": [d, d, 0.0, w, 1000], "input": kind, "sweep": True}
+            if n > 1:
+                dm = float(Decimal(n - 1) * Decimal(k) / Decimal(1000))
+                yield {"grid": [w, d, dm, w, 1000], "input": "bytes", "sweep": True}
+
+
 def jobs(tier, seed):
     b = BOUNDS[tier]
     out = [{"name": f"grid-{sr}-{w}", "kind": "grid", "sr": sr, "w": w} for sr in G_RATE for w in G_W]
+    kmax, nmax = (151, 130) if tier == "quick" else (401, 400)
+    out += [{"name": f"sweep-{lo}", "kind": "sweep", "lo": lo, "hi": min(lo + 10, kmax), "nmax": nmax} for lo in range(1, kmax, 10)]
     out += [{"name": f"hyp-{i}", "kind": "hyp", "seed": seed * 1000 + i, "n": b["n"]} for i in range(16)]
     return out
 
 
 def run_job(job, rec):
     mod = sys.modules[__name__]
-    if job["kind"] == "grid":
+    if job["kind"] == "sweep":
+        run_cases(mod, _sweep(job["lo"], job["hi"], job["nmax"]), rec)
+    elif job["kind"] == "grid":
         run_cases(mod, (c for c in _grid([job["sr"]]) if c["grid"][3] == job["w"]), rec)
     else:
         hyp_run(mod, strategy(), rec, job["seed"], job["n"])
